@@ -254,11 +254,39 @@ macro_rules! with_engine {
     };
 }
 
+/// A shard argument whose `as_ref()` is not pure: the first call returns one slice, later calls another
+/// (a double-buffered source). The API takes `T: AsRef<[u8]>`; nothing allows it to assume purity, so a call
+/// must look at the argument once - whatever it does, it must not panic and must not report an untruthful error.
+pub struct Flaky<'a> {
+    calls: std::cell::Cell<u32>,
+    first: &'a [u8],
+    later: &'a [u8],
+}
+
+impl<'a> Flaky<'a> {
+    pub fn new(first: &'a [u8], later: &'a [u8]) -> Self {
+        Self { calls: std::cell::Cell::new(0), first, later }
+    }
+}
+
+impl AsRef<[u8]> for Flaky<'_> {
+    fn as_ref(&self) -> &[u8] {
+        let n = self.calls.get();
+        self.calls.set(n + 1);
+        if n == 0 {
+            self.first
+        } else {
+            self.later
+        }
+    }
+}
+
 // ======================================================================
 // ENCODER
 
 pub trait DynEncoder {
     fn add(&mut self, shard: &[u8]) -> Result<(), Error>;
+    fn add_flaky(&mut self, shard: &Flaky) -> Result<(), Error>;
     fn encode(&mut self) -> Result<EncoderResult<'_>, Error>;
     fn reset(&mut self, k: usize, r: usize, b: usize) -> Result<(), Error>;
     /// `None` for the `ReedSolomonEncoder` wrapper, which cannot give its work away.
@@ -269,6 +297,9 @@ struct EncWrap<E: Engine, T: RateEncoder<E>>(T, std::marker::PhantomData<E>);
 
 impl<E: Engine, T: RateEncoder<E>> DynEncoder for EncWrap<E, T> {
     fn add(&mut self, shard: &[u8]) -> Result<(), Error> {
+        self.0.add_original_shard(shard)
+    }
+    fn add_flaky(&mut self, shard: &Flaky) -> Result<(), Error> {
         self.0.add_original_shard(shard)
     }
     fn encode(&mut self) -> Result<EncoderResult<'_>, Error> {
@@ -284,6 +315,9 @@ impl<E: Engine, T: RateEncoder<E>> DynEncoder for EncWrap<E, T> {
 
 impl DynEncoder for ReedSolomonEncoder {
     fn add(&mut self, shard: &[u8]) -> Result<(), Error> {
+        self.add_original_shard(shard)
+    }
+    fn add_flaky(&mut self, shard: &Flaky) -> Result<(), Error> {
         self.add_original_shard(shard)
     }
     fn encode(&mut self) -> Result<EncoderResult<'_>, Error> {
@@ -414,6 +448,7 @@ pub fn enc_validate(kind: Kind, k: usize, r: usize, b: usize) -> Vec<(&'static s
 // DECODER
 
 pub trait DynDecoder {
+    fn add_flaky(&mut self, is_rec: bool, index: usize, shard: &Flaky) -> Result<(), Error>;
     fn add_original(&mut self, index: usize, shard: &[u8]) -> Result<(), Error>;
     fn add_recovery(&mut self, index: usize, shard: &[u8]) -> Result<(), Error>;
     fn decode(&mut self) -> Result<DecoderResult<'_>, Error>;
@@ -424,6 +459,13 @@ pub trait DynDecoder {
 struct DecWrap<E: Engine, T: RateDecoder<E>>(T, std::marker::PhantomData<E>);
 
 impl<E: Engine, T: RateDecoder<E>> DynDecoder for DecWrap<E, T> {
+    fn add_flaky(&mut self, is_rec: bool, index: usize, shard: &Flaky) -> Result<(), Error> {
+        if is_rec {
+            self.0.add_recovery_shard(index, shard)
+        } else {
+            self.0.add_original_shard(index, shard)
+        }
+    }
     fn add_original(&mut self, index: usize, shard: &[u8]) -> Result<(), Error> {
         self.0.add_original_shard(index, shard)
     }
@@ -442,6 +484,13 @@ impl<E: Engine, T: RateDecoder<E>> DynDecoder for DecWrap<E, T> {
 }
 
 impl DynDecoder for ReedSolomonDecoder {
+    fn add_flaky(&mut self, is_rec: bool, index: usize, shard: &Flaky) -> Result<(), Error> {
+        if is_rec {
+            self.add_recovery_shard(index, shard)
+        } else {
+            self.add_original_shard(index, shard)
+        }
+    }
     fn add_original(&mut self, index: usize, shard: &[u8]) -> Result<(), Error> {
         self.add_original_shard(index, shard)
     }
